@@ -50,6 +50,10 @@ class BaseGotranODECodePrinter(StrPrinter):
     def _print_And(self, expr):
         return f"And({', '.join(self._print(a) for a in expr.args)})"
 
+    def _print_Not(self, expr):
+        # sympy writes ~x, which the grammar cannot read
+        return f"Not({self._print(expr.args[0])})"
+
     def _print_Exp1(self, expr):
         # The grammar has no symbol for Euler's number
         return "exp(1)"
